@@ -141,8 +141,10 @@ class SyncCrazyflie:
         has been connected and the TOCs have been downloaded."""
         logger.debug('Connected to %s' % link_uri)
         self._is_link_open = True
-        if self._connect_event:
-            self._connect_event.set()
+        # Use a local reference, open_link() resets the event when it returns
+        connect_event = self._connect_event
+        if connect_event:
+            connect_event.set()
 
     def _connection_failed(self, link_uri, msg):
         """Callback when initial connection fails (i.e no Crazyflie
@@ -150,18 +152,22 @@ class SyncCrazyflie:
         logger.debug('Connection to %s failed: %s' % (link_uri, msg))
         self._is_link_open = False
         self._error_message = msg
-        if self._connect_event:
-            self._connect_event.set()
+        connect_event = self._connect_event
+        if connect_event:
+            connect_event.set()
 
     def _disconnected(self, link_uri):
         self._remove_callbacks()
         self._is_link_open = False
-        if self._disconnect_event:
-            self._disconnect_event.set()
-        if self._connect_event:
+        # Use local references, open_link() and close_link() reset the events when they return
+        disconnect_event = self._disconnect_event
+        if disconnect_event:
+            disconnect_event.set()
+        connect_event = self._connect_event
+        if connect_event:
             # The link went down before the connection was set up, open_link() is still waiting
             self._error_message = 'Disconnected from {} before the connection was set up'.format(link_uri)
-            self._connect_event.set()
+            connect_event.set()
 
     def _all_params_updated(self, link_uri):
         self._params_updated_event.set()
